@@ -126,6 +126,50 @@ Theorem C16_restored_schema_describes_alike :
 Proof. exact restored_describes_alike. Qed.
 Print Assumptions C16_restored_schema_describes_alike.
 
+(* ---------------- round 2: the length cut of BLOB / VARCHAR defaults; repeated column names ---------------- *)
+(* [text_cast] (Model/C16.v) is parse_bytes / parse_varchar on text, bytes, int and bool values with the column's
+   length (None or an int): BLOB cuts BYTES after encoding, VARCHAR cuts CHARACTERS after decoding.  The correspondence
+   compares every observed BLOB / VARCHAR parse result with it ([parse_conforms]).  Whatever it returns is left alone
+   by a second cast with the same length (None or n >= 0, which is all a type name can say) ... *)
+Theorem C16_length_cut_is_idempotent :
+  forall (m : str) (len p s e v r : pv),
+  len_ok len = true ->
+  text_cast m (len, p, s, e) v = Some (Ok r) -> text_cast m (len, p, s, e) r = Some (Ok r).
+Proof. exact text_cast_idempotent. Qed.
+Print Assumptions C16_length_cut_is_idempotent.
+
+(* ... so for a BLOB[n] / VARCHAR[n] column whose default was produced by that cast (from any covered value D: text in
+   any script, bytes, ...) the default premise of the round-trip theorems ([default_ok], part of [persistable]) holds
+   for every parse that agrees with the sub-model: re-parsing the stored default on load gives it back. *)
+Theorem C16_cut_default_survives_reparse :
+  forall (parse : str -> params -> pv -> result pv) (c : column) (m : str) (D : pv),
+  agrees_with_text_cast parse ->
+  c_type c = PA (ATy m) -> len_ok (c_length c) = true ->
+  text_cast m (col_params c) D = Some (Ok (c_default c)) ->
+  default_ok parse c (c_default c).
+Proof. exact cast_default_ok. Qed.
+Print Assumptions C16_cut_default_survives_reparse.
+
+(* A NEGATIVE length (only reachable through the length keyword, never through a type name) is not covered:
+   value[:-1] shortens the value again on every load (BLOB, length -1: b'abc' -> b'ab' -> b'a').  See notes/C16.md. *)
+Theorem C16_negative_length_refuted :
+  exists q v r r', text_cast m_blob q v = Some (Ok r) /\ text_cast m_blob q r = Some (Ok r') /\ r <> r'.
+Proof. exact negative_length_not_fixed. Qed.
+Print Assumptions C16_negative_length_refuted.
+
+(* The restored schema has as many columns as the original, in the same positions: every attribute other than the
+   type of untyped columns (names, identities, defaults, ...) agrees position by position.  NO hypothesis says that
+   the columns' names are distinct: a schema may hold several columns of one name (a self-join, a column selected
+   twice); they are told apart by their identities and every one of them comes back. *)
+Theorem C16_restored_schema_keeps_every_column :
+  forall (parse : str -> params -> pv -> result pv) (fresh : nat -> str) (s s' : schema),
+  Forall (persistable parse) (s_columns s) ->
+  from_dict parse fresh (to_dict s) = Ok s' ->
+  List.length (s_columns s') = List.length (s_columns s) /\
+  forall f, f <> FType -> map (get f) (s_columns s') = map (get f) (s_columns s).
+Proof. exact schema_round_trip_keeps_columns. Qed.
+Print Assumptions C16_restored_schema_keeps_every_column.
+
 (* ---------------- witnesses ---------------- *)
 Definition P0 : str -> params -> pv -> result pv := fun _ _ v => Ok v.
 Definition T (s : string) : pv := PA (AText (txt s)).
@@ -231,3 +275,32 @@ Proof.
   - unfold normalised. split; [left; eexists; reflexivity|]. split; [left; reflexivity|].
     split; [intros _; split; reflexivity|]. intros _ m H _. inversion H. reflexivity.
 Qed.
+
+(* Round 2 non-vacuity.  BLOB[3] with the text default 'h\233llo' (h, e-acute, l, l, o): the cast keeps the first three
+   BYTES 'h' 0xC3 0xA9; the stored default is a fixed point; the hypotheses of C16_cut_default_survives_reparse hold
+   for the parse that IS the sub-model. *)
+Definition PC : str -> params -> pv -> result pv :=
+  fun m q v => match text_cast m q v with Some r => r | None => Ok v end.
+Definition blob3 : column :=
+  mkcolumn (T "payload") (PA (ABytes [104; 195; 169]%N)) (PA (ATy m_blob)) PNone PNone PNone (PL []) (PA (ABool false)) (PL [])
+           (T "0123456789abcdef") (PA (AInt 3)) PNone PNone (PL []) PNone PNone PNone.
+Example C16_nonvacuous_cut :
+  agrees_with_text_cast PC /\
+  text_cast m_blob (col_params blob3) (PA (AText [104; 233; 108; 108; 111]%N)) = Some (Ok (c_default blob3)) /\
+  text_cast m_varchar (PA (AInt 3), PNone, PNone, PNone) (PA (ABytes [104; 195; 169; 108; 108; 111]%N)) =
+    Some (Ok (PA (AText [104; 233; 108]%N))) /\
+  init PC class_flat [] (to_dict_col blob3) = Ok blob3.
+Proof.
+  split; [|repeat split; vm_compute; reflexivity].
+  intros m q v r H. unfold PC. rewrite H. reflexivity.
+Qed.
+
+(* Two columns called "id" with different identities and types, and one of them listed twice: all three come back. *)
+Definition id_left : column := plain_column "id" (PA (ATy m_varchar)) PNone.
+Definition id_right : column :=
+  mkcolumn (T "id") PNone (PA (ATy (txt "INTEGER"))) PNone PNone PNone (PL []) (PA (ABool true)) (PL []) (T "fedcba9876543210") PNone PNone PNone
+           (PL []) PNone PNone PNone.
+Example C16_nonvacuous_repeated_names :
+  let s := mkschema (T "j") (PL []) [id_left; id_right; id_left] (T "id") PNone PNone PNone PNone in
+  from_dict P0 (fun _ => []) (to_dict s) = Ok s.
+Proof. vm_compute. reflexivity. Qed.
